@@ -25,11 +25,11 @@ SampleLoose(N, n, rows) ==
     /\ (n > 0) => (Len(rows) >= 1 /\ rows[1] = 0)
 
 RowsOK(sel, n, rows) ==
-    IF sel.kind = "slice" THEN rows = PySlice(sel.a, sel.b, sel.c, n)
+    IF sel.kind = "slice" THEN rows = PySliceAny(sel.a, sel.b, sel.c, n)       \* either sign of the step: exactly Python slice semantics
     ELSE SampleLoose(sel.N, n, rows)
 
 (* the selection is empty: no frame to write, start/stop/step are undefined *)
-EmptySelection(sel, n) == IF sel.kind = "slice" THEN PyCount(sel.a, sel.b, sel.c, n) = 0 ELSE n = 0
+EmptySelection(sel, n) == IF sel.kind = "slice" THEN PyCountAny(sel.a, sel.b, sel.c, n) = 0 ELSE n = 0
 
 -----------------------------------------------------------------------------
 (* columns: X first, then the requested channels that the pass has, in pass order; an empty request means all *)
